@@ -272,3 +272,398 @@ Lemma req_sent_when_ready fx s k sq p rd c m :
 Proof.
   intros H1 H2 H3 H4. unfold run_send_queue. rewrite H1. cbn [length]. eapply run_sendq_head; eauto.
 Qed.
+
+(* ------------------------------------------------------------------ *)
+(* ids: nni_id_alloc on the requests map                                *)
+Definition cursor_ok (cur : N) : Prop := (REQ_ID_MIN <= cur <= REQ_ID_MAX)%N.
+Lemma id_next_ok cur : cursor_ok cur -> cursor_ok (id_next cur).
+Proof.
+  unfold cursor_ok, id_next, REQ_ID_MIN, REQ_ID_MAX. intros H.
+  destruct (N.ltb_spec 4294967295 (cur + 1)); lia.
+Qed.
+Lemma id_alloc_fresh f ids cur id cur' :
+  id_alloc f ids cur = Some (id, cur') -> cursor_ok cur ->
+  lookup id ids = None /\ cursor_ok id /\ cursor_ok cur'.
+Proof.
+  revert cur. induction f as [|f IH]; intros cur H Hc; cbn [id_alloc] in H; [discriminate|].
+  destruct (lookup cur ids) eqn:E.
+  - apply IH in H; auto. now apply id_next_ok.
+  - inversion H; subst. split; [exact E|]. split; [exact Hc|]. now apply id_next_ok.
+Qed.
+
+(* ------------------------------------------------------------------ *)
+(* C12: what req0_run_send_queue does to a queued request               *)
+Definition pending (s : req) (k : N) (m : pmsg) : Prop :=
+  In k (rq_sendq s) /\ exists c, ctx_get s k = Some c /\ cx_req c = Some m.
+
+Lemma ctx_get_put_same s k c : ctx_get (ctx_put s k c) k = Some c.
+Proof. unfold ctx_get, ctx_put. cbn [rq_ctxs set_ctxs]. apply lookup_assoc_set_same. Qed.
+Lemma ctx_get_put_other s k k' c : k' <> k -> ctx_get (ctx_put s k c) k' = ctx_get s k'.
+Proof. intros H. unfold ctx_get, ctx_put. cbn [rq_ctxs set_ctxs]. now apply lookup_assoc_set_other. Qed.
+
+Lemma run_sendq_pending fx f : forall s k m s' outs cl,
+  pending s k m -> run_sendq fx f s = (s', outs, cl) ->
+  pending s' k m \/ exists p, In (TranSend p m) outs.
+Proof.
+  induction f as [|f IH]; intros s k m s' outs cl Hp H; cbn [run_sendq] in H.
+  - inversion H; subst. auto.
+  - destruct (rq_sendq s) as [|k0 sq] eqn:ES.
+    { inversion H; subst. left. exact Hp. }
+    destruct (rq_ready s) as [|p rd] eqn:ER.
+    { inversion H; subst. left. exact Hp. }
+    destruct Hp as [Hin [c [Hg Hr]]]. rewrite ES in Hin.
+    destruct (ctx_get s k0) as [c0|] eqn:EG0.
+    2:{ destruct (N.eq_dec k0 k) as [->|Hne]; [congruence|].
+        eapply IH; [|exact H]. split; [cbn [rq_sendq set_sendq]; destruct Hin; [congruence|auto]|].
+        exists c. split; auto. }
+    destruct (cx_req c0) as [m0|] eqn:ER0.
+    2:{ destruct (N.eq_dec k0 k) as [->|Hne]; [congruence|].
+        eapply IH; [|exact H]. split; [cbn [rq_sendq set_sendq]; destruct Hin; [congruence|auto]|].
+        exists c. split; auto. }
+    match type of H with context [run_sendq fx f ?X] => destruct (run_sendq fx f X) as [[s7 o7] cl7] eqn:E7 end.
+    inversion H; subst; clear H.
+    destruct (N.eq_dec k0 k) as [->|Hne].
+    + right. exists p. apply in_or_app. right. left. rewrite Hg in EG0. inversion EG0; subst. congruence.
+    + eapply IH in E7.
+      * destruct E7 as [E7|[q E7]]; [left; exact E7|right; exists q; apply in_or_app; right; right; exact E7].
+      * split.
+        -- cbn [rq_sendq set_sending set_sendq ctx_put set_ctxs]. destruct Hin as [E|Hin]; [congruence|].
+           destruct (retry_on fx c0); destruct (is_nil rd); cbn [rq_sendq set_sending set_sendq ctx_put set_ctxs set_writable set_pipes set_plist set_retryq]; exact Hin.
+        -- exists c. split; [|exact Hr].
+           unfold ctx_get. cbn [rq_ctxs set_sending ctx_put set_ctxs].
+           rewrite lookup_assoc_set_other by congruence.
+           destruct (retry_on fx c0); destruct (is_nil rd); cbn [rq_ctxs set_writable set_pipes set_plist set_retryq set_sendq]; exact Hg.
+Qed.
+
+Lemma run_send_queue_pending fx s k m s' outs cl :
+  pending s k m -> run_send_queue fx s = (s', outs, cl) -> pending s' k m \/ exists p, In (TranSend p m) outs.
+Proof. unfold run_send_queue. apply run_sendq_pending. Qed.
+
+(* req0_retry_cb's scan: an expired context with a request ends on the send queue *)
+Lemma retry_scan_keeps s now ks : forall sq k, In k sq -> In k (fst (retry_scan s now ks sq)).
+Proof.
+  induction ks as [|k0 ks IH]; intros sq k Hin; cbn [retry_scan]; [exact Hin|].
+  destruct (ctx_get s k0) as [c0|]; [|auto].
+  destruct ((now <? cx_rtime c0)%N || match cx_req c0 with None => true | Some _ => false end); [auto|].
+  destruct (retry_scan s now ks (if has_id k0 sq then sq else sq ++ [k0])) as [sq' b] eqn:E. cbn [fst].
+  replace sq' with (fst (retry_scan s now ks (if has_id k0 sq then sq else sq ++ [k0]))) by (rewrite E; reflexivity).
+  apply IH. destruct (has_id k0 sq); [exact Hin|apply in_or_app; auto].
+Qed.
+Lemma retry_scan_queues s now ks : forall sq k c m,
+  In k ks -> ctx_get s k = Some c -> cx_req c = Some m -> (cx_rtime c <= now)%N ->
+  In k (fst (retry_scan s now ks sq)) /\ snd (retry_scan s now ks sq) = true.
+Proof.
+  induction ks as [|k0 ks IH]; intros sq k c m Hin Hg Hr Ht; [destruct Hin|].
+  cbn [retry_scan]. destruct (N.eq_dec k0 k) as [->|Hne].
+  - rewrite Hg, Hr. destruct (N.ltb_spec now (cx_rtime c)); [lia|]. cbn [orb].
+    destruct (retry_scan s now ks (if has_id k sq then sq else sq ++ [k])) as [sq' b] eqn:E. cbn [fst snd]. split; [|reflexivity].
+    replace sq' with (fst (retry_scan s now ks (if has_id k sq then sq else sq ++ [k]))) by (rewrite E; reflexivity).
+    apply retry_scan_keeps. destruct (has_id k sq) eqn:EH; [now apply has_id_true|apply in_or_app; right; left; reflexivity].
+  - destruct Hin as [E|Hin]; [congruence|].
+    destruct (ctx_get s k0) as [c0|]; [|eapply IH; eauto].
+    destruct ((now <? cx_rtime c0)%N || match cx_req c0 with None => true | Some _ => false end); [eapply IH; eauto|].
+    destruct (retry_scan s now ks (if has_id k0 sq then sq else sq ++ [k0])) as [sq' b] eqn:E. cbn [fst snd].
+    specialize (IH (if has_id k0 sq then sq else sq ++ [k0]) k c m Hin Hg Hr Ht). rewrite E in IH. cbn [fst snd] in IH. tauto.
+Qed.
+
+(* req_resend_on_tick: the retry timer fires (strictly after its deadline) with
+   the clock at or past the context's retry time: the request is queued again,
+   and transmitted at once if a pipe is ready *)
+Lemma req_tick_resends fx s now d k c m s' outs :
+  rq_closed s = false -> rq_active s = true -> rq_tickdl s = Some d -> (d < now)%N ->
+  In k (rq_retryq s) -> ctx_get s k = Some c -> cx_req c = Some m -> (cx_rtime c <= now)%N ->
+  req_step fx s (PTick now) = (s', outs) ->
+  pending s' k m \/ exists p, In (TranSend p m) outs.
+Proof.
+  intros Hc Ha Hd Hlt Hin Hg Hr Ht H. unfold req_step, req_stepL in H.
+  cbn [rq_closed rq_active rq_tickdl set_now] in H. rewrite Hc, Ha, Hd in H. cbn [orb negb] in H.
+  destruct (N.ltb_spec d now); [|lia]. cbn [negb] in H.
+  assert (Hg0 : ctx_get (set_now s now) k = Some c) by exact Hg.
+  pose proof (retry_scan_queues (set_now s now) now (rq_retryq (set_now s now)) (rq_sendq (set_now s now)) k c m Hin Hg0 Hr Ht) as [Hq Hs].
+  destruct (retry_scan (set_now s now) now (rq_retryq (set_now s now)) (rq_sendq (set_now s now))) as [sq resched] eqn:E.
+  cbn [fst snd] in Hq, Hs. subst resched.
+  match type of H with context [if is_nil ?L then _ else _] => destruct (is_nil L) end.
+  - match type of H with context [run_send_queue fx ?X] => destruct (run_send_queue fx X) as [[s3 o2] cl] eqn:E3 end.
+    inversion H; subst. eapply run_send_queue_pending in E3.
+    + destruct E3 as [E3|[p E3]]; [left; exact E3|right; exists p; exact E3].
+    + split; [exact Hq|]. exists c. split; [exact Hg|exact Hr].
+  - match type of H with context [run_send_queue fx ?X] => destruct (run_send_queue fx X) as [[s3 o2] cl] eqn:E3 end.
+    inversion H; subst. eapply run_send_queue_pending in E3.
+    + destruct E3 as [E3|[p E3]]; [left; exact E3|right; exists p; apply in_or_app; right; exact E3].
+    + split; [exact Hq|]. exists c. split; [exact Hg|exact Hr].
+Qed.
+
+(* a matching reply completes the pending receive *)
+Lemma req_match_completes fx s p m id b k c a :
+  req_recv (pm_body m) = Some (id, b) -> matchable s id k c -> cx_recv c = Some a ->
+  exists s', exists outs, req_step fx s (PRecvDone p 0 m) = (s', outs) /\ In (Complete a E_OK (Some b)) outs.
+Proof.
+  intros ER HM HA. destruct (req_step fx s (PRecvDone p 0 m)) as [s' outs] eqn:E.
+  exists s', outs. split; [reflexivity|].
+  pose proof (req_match_consumes fx s p m s' outs id b k c E ER HM) as [_ [c' [_ [_ [_ [_ [_ H]]]]]]].
+  apply (H a HA).
+Qed.
+
+(* bounded progress, one pipe at a time: with no ready pipe, a new pipe takes the
+   head of the send queue; every other queued request moves up one place *)
+Lemma req_pipe_start_progress fx s p k sq c m s' outs :
+  rq_ready s = [] -> rq_sendq s = k :: sq -> ctx_get s k = Some c -> cx_req c = Some m ->
+  req_step fx s (PPipeStart p PROTO_REP) = (s', outs) ->
+  In (TranSend p m) outs.
+Proof.
+  intros Hr Hs Hg Hq H. unfold req_step, req_stepL in H. change (negb (PROTO_REP =? PROTO_REP)%N) with false in H. cbv iota in H.
+  match type of H with context [run_send_queue fx ?X] =>
+    destruct (req_sent_when_ready fx X k sq p [] c m) as [s2 [o2 [cl [E Hin]]]] end.
+  - exact Hs.
+  - cbn [rq_ready set_writable set_pipes]. now rewrite Hr.
+  - exact Hg.
+  - exact Hq.
+  - rewrite E in H. inversion H; subst. apply in_or_app. left. exact Hin.
+Qed.
+
+(* ------------------------------------------------------------------ *)
+(* C12: req0_pipe_close                                                 *)
+(* the state in which req0_pipe_close starts walking the pipe's list *)
+Definition pc_start (s : req) (p : pid) : req :=
+  let s1 := set_pipes s (remove_id p (rq_ready s)) (remove_id p (rq_busy s)) (rq_pclosed s ++ [p]) in
+  if is_nil (rq_ready s1) then set_writable s1 false else s1.
+Lemma pc_start_plist s p : rq_plist (pc_start s p) = rq_plist s.
+Proof. unfold pc_start. cbv zeta. match goal with |- context [if ?b then _ else _] => destruct b end; reflexivity. Qed.
+Lemma pc_start_ctx s p k : ctx_get (pc_start s p) k = ctx_get s k.
+Proof. unfold pc_start. cbv zeta. match goal with |- context [if ?b then _ else _] => destruct b end; reflexivity. Qed.
+Lemma pc_start_sendq s p : rq_sendq (pc_start s p) = rq_sendq s.
+Proof. unfold pc_start. cbv zeta. match goal with |- context [if ?b then _ else _] => destruct b end; reflexivity. Qed.
+Lemma pc_start_now s p : rq_now (pc_start s p) = rq_now s.
+Proof. unfold pc_start. cbv zeta. match goal with |- context [if ?b then _ else _] => destruct b end; reflexivity. Qed.
+
+Lemma req_pipe_close_unfold fx s p : req_stepL fx s (PPipeClose p) = pipe_close_loop fx (length (rq_plist (pc_start s p))) (pc_start s p) p.
+Proof. reflexivity. Qed.
+
+(* retry enabled: the context last written to the lost pipe goes back to the
+   send queue with its request intact (and out again at once if a pipe is ready) *)
+Lemma req_pipe_loss_requeues fx s p k c m s' outs :
+  rq_plist s = [(p, k)] -> ctx_get s k = Some c -> retry_on fx c = true -> cx_req c = Some m ->
+  req_step fx s (PPipeClose p) = (s', outs) ->
+  pending s' k m \/ exists q, In (TranSend q m) outs.
+Proof.
+  intros Hpl Hg Hrt Hrq H. unfold req_step in H. rewrite req_pipe_close_unfold, pc_start_plist, Hpl in H.
+  cbn [length pipe_close_loop] in H. rewrite pc_start_plist, Hpl in H. cbn [first_on] in H. rewrite N.eqb_refl in H.
+  assert (Hd : plist_del k [(p, k)] = []) by (unfold plist_del; cbn [filter snd]; now rewrite N.eqb_refl).
+  rewrite Hd in H.
+  assert (Hg0 : ctx_get (set_plist (pc_start s p) []) k = Some c) by (rewrite <- Hg; apply (pc_start_ctx s p k)).
+  rewrite Hg0, Hrt in H. cbn [negb] in H. cbv iota in H.
+  destruct (cx_req c) as [m0|] eqn:Erq; [|discriminate]. inversion Hrq; subst m0.
+  match type of H with context [if has_id k ?X then _ else _] => destruct (has_id k X) eqn:EH end.
+  - inversion H; subst. left. split.
+    + apply has_id_true in EH. exact EH.
+    + eexists. split; [apply ctx_get_put_same|]. reflexivity.
+  - match type of H with context [run_send_queue fx ?X] => destruct (run_send_queue fx X) as [[s3 o3] cl3] eqn:E3 end.
+    inversion H; subst. rewrite !app_nil_r. eapply run_send_queue_pending in E3.
+    + destruct E3 as [E3|[q E3]]; [left; exact E3|right; exists q; exact E3].
+    + split.
+      * cbn [rq_sendq set_sendq]. apply in_or_app. right. left. reflexivity.
+      * eexists. split; [unfold ctx_get; cbn [rq_ctxs set_sendq]; apply ctx_get_put_same|]. reflexivity.
+Qed.
+
+(* resending disabled: losing the connection completes the pending receive with
+   NNG_ECONNRESET, or marks the context so that the next receive reports it; the
+   request is gone either way (it is never queued again) *)
+Lemma req_pipe_loss_noretry fx s p k c s' outs :
+  rq_plist s = [(p, k)] -> ctx_get s k = Some c -> retry_on fx c = false ->
+  req_step fx s (PPipeClose p) = (s', outs) ->
+  ~ In k (rq_sendq s') /\
+  exists c', ctx_get s' k = Some c' /\ cx_req c' = None /\ cx_recv c' = None /\
+    (forall a, cx_recv c = Some a -> In (Complete a E_CONNRESET None) outs) /\
+    (cx_recv c = None -> cx_creset c' = true).
+Proof.
+  intros Hpl Hg Hrt H. unfold req_step in H. rewrite req_pipe_close_unfold, pc_start_plist, Hpl in H.
+  cbn [length pipe_close_loop] in H. rewrite pc_start_plist, Hpl in H. cbn [first_on] in H. rewrite N.eqb_refl in H.
+  assert (Hd : plist_del k [(p, k)] = []) by (unfold plist_del; cbn [filter snd]; now rewrite N.eqb_refl).
+  rewrite Hd in H.
+  assert (Hg0 : ctx_get (set_plist (pc_start s p) []) k = Some c) by (rewrite <- Hg; apply (pc_start_ctx s p k)).
+  rewrite Hg0, Hrt in H. cbn [negb] in H.
+  assert (Hnot : forall st, ~ In k (remove_id k st)) by (intros st Hin; apply in_remove_id in Hin; tauto).
+  destruct (cx_recv c) as [ra|] eqn:ERA.
+  - unfold ctx_reset in H. cbv zeta in H.
+    match type of H with context [if (cx_rid ?C =? 0)%N then ?A else ?B] => destruct (cx_rid C =? 0)%N end;
+    match type of H with context [if ?b then set_readable _ false else _] => destruct b end;
+    inversion H; subst; (split; [cbn [rq_sendq ctx_put set_ctxs set_readable set_ids set_plist set_sendq set_retryq]; apply Hnot|]);
+    (eexists; split; [apply ctx_get_put_same|]); cbn [cx_req cx_recv cx_creset];
+    (split; [reflexivity|]); (split; [reflexivity|]); (split; [intros a E; inversion E; subst; left; reflexivity|intros E; discriminate]).
+  - unfold ctx_reset in H. cbv zeta in H.
+    match type of H with context [if (cx_rid ?C =? 0)%N then ?A else ?B] => destruct (cx_rid C =? 0)%N end;
+    match type of H with context [if ?b then set_readable _ false else _] => destruct b end;
+    inversion H; subst; (split; [cbn [rq_sendq ctx_put set_ctxs set_readable set_ids set_plist set_sendq set_retryq]; apply Hnot|]);
+    (eexists; split; [apply ctx_get_put_same|]); cbn [cx_req cx_recv cx_creset];
+    (split; [reflexivity|]); (split; [exact ERA|]); (split; [intros a E; discriminate|intros E; reflexivity]).
+Qed.
+
+(* ------------------------------------------------------------------ *)
+(* histories                                                            *)
+Fixpoint req_run (fx : rfix) (s : req) (ops : list pop) : req * list (pop * req * list pout * list pmsg) :=
+  match ops with
+  | [] => (s, [])
+  | o :: r => let '(s1, outs, cl) := req_stepL fx s o in
+              let '(s2, tr) := req_run fx s1 r in (s2, (o, s, outs, cl) :: tr)
+  end.
+
+(* ------------------------------------------------------------------ *)
+(* C03 clause: the reference ledger of request messages.
+   The protocol's references to message x change by
+     + 1  when a send is accepted (the caller's reference is taken over),
+     + 1  per clone,
+     + 1  when a failed transport send leaves the message on the pipe's aio,
+     - 1  per Free, per hand-over to a transport (TranSend), and when a queued
+          request goes back to its aio (cancel / supersede / close).
+   The balance may never become negative (that is a double free or the use of
+   a freed message) and once nothing refers to x any more it must be zero (else
+   x has leaked). *)
+Fixpoint bytes_eqb (a b : list N) : bool :=
+  match a, b with
+  | [], [] => true
+  | x :: a', y :: b' => N.eqb x y && bytes_eqb a' b'
+  | _, _ => false
+  end.
+Definition msg_eqb (a b : pmsg) : bool := bytes_eqb (pm_hdr a) (pm_hdr b) && bytes_eqb (pm_body a) (pm_body b).
+Definition opt_msg_is (x : pmsg) (o : option pmsg) : bool := match o with Some m => msg_eqb x m | None => false end.
+Fixpoint n_free (x : pmsg) (outs : list pout) : nat :=
+  match outs with [] => 0 | Free m :: r => (if msg_eqb x m then 1 else 0) + n_free x r | _ :: r => n_free x r end.
+Fixpoint n_tx (x : pmsg) (outs : list pout) : nat :=
+  match outs with [] => 0 | TranSend _ m :: r => (if msg_eqb x m then 1 else 0) + n_tx x r | _ :: r => n_tx x r end.
+Fixpoint n_msgs (x : pmsg) (l : list pmsg) : nat :=
+  match l with [] => 0 | m :: r => (if msg_eqb x m then 1 else 0) + n_msgs x r end.
+Fixpoint aio_failed (a : aioid) (outs : list pout) : bool :=
+  match outs with
+  | [] => false
+  | Complete b rv _ :: r => (N.eqb a b && negb (N.eqb rv 0)) || aio_failed a r
+  | _ :: r => aio_failed a r
+  end.
+(* queued requests (send aio still pending) that go back to their aio in this step *)
+Definition n_returned (x : pmsg) (s : req) (outs : list pout) : nat :=
+  length (filter (fun kc => match cx_send (snd kc) with
+                            | Some sa => aio_failed sa outs && opt_msg_is x (cx_req (snd kc))
+                            | None => false end) (rq_ctxs s)).
+Definition n_accepted (x : pmsg) (o : pop) (s' : req) (outs : list pout) : nat :=
+  match o with
+  | PSend c a _ _ => if aio_failed a outs then 0
+                     else match ctx_get s' (ckey c) with Some cx => if opt_msg_is x (cx_req cx) then 1 else 0 | None => 0 end
+  | _ => 0
+  end.
+Definition n_regained (x : pmsg) (s : req) (o : pop) : nat :=
+  match o with
+  | PSendDone p rv => if N.eqb rv 0 then 0 else n_msgs x (map snd (filter (fun e => N.eqb (fst e) p) (rq_sending s)))
+  | _ => 0
+  end.
+(* how many protocol-side pointers refer to x *)
+Definition n_pointers (x : pmsg) (s : req) : nat :=
+  length (filter (fun kc => opt_msg_is x (cx_req (snd kc))) (rq_ctxs s)).
+
+Fixpoint ledger (fx : rfix) (x : pmsg) (s : req) (ops : list pop) (bal : Z) (ok : bool) : Z * bool * req :=
+  match ops with
+  | [] => (bal, ok, s)
+  | o :: r =>
+      let '(s', outs, cl) := req_stepL fx s o in
+      let bal' := (bal + Z.of_nat (n_accepted x o s' outs + n_msgs x cl + n_regained x s o)
+                   - Z.of_nat (n_free x outs + n_tx x outs + n_returned x s outs))%Z in
+      ledger fx x s' r bal' (ok && (0 <=? bal')%Z)
+  end.
+
+Definition fx_pinned : rfix := mkFix false false false false.
+Definition fx_repaired : rfix := mkFix true true true true.
+Definition w_req : pmsg := mkPmsg [] [170%N; 1%N].
+Definition w_wire : pmsg := req_send (REQ_ID_MIN + 1) w_req.           (* the request as stored / transmitted *)
+Definition w_reply : pmsg := mkPmsg [] (be32 (REQ_ID_MIN + 1) ++ [187%N]).
+(* resend disabled at send time (not cloned), enabled before the reply (freed as if cloned) *)
+Definition w_uaf : list pop :=
+  [PSetOpt None (OResendTime (-1)); PPipeStart 1%N PROTO_REP; PSend None 0%N false w_req; PSendDone 1%N 0%N;
+   PSetOpt None (OResendTime 1000); PRecvDone 1%N 0%N w_reply].
+(* resend enabled at send time (cloned), disabled before the reply (not freed) *)
+Definition w_leak : list pop :=
+  [PPipeStart 1%N PROTO_REP; PSend None 0%N false w_req; PSendDone 1%N 0%N;
+   PSetOpt None (OResendTime (-1)); PRecvDone 1%N 0%N w_reply; PSockClose].
+(* queued with resend 5 s, disabled before a pipe arrives (handed over un-cloned but
+   still on the retry queue): the retry timer transmits the freed message again *)
+Definition w_resend : list pop :=
+  [PSetOpt None (OResendTime 5000); PSend None 0%N false w_req; PSetOpt None (OResendTime (-1));
+   PPipeStart 1%N PROTO_REP; PSendDone 1%N 0%N; PTick 7000%N].
+
+Lemma req_clone_policy_refuted_w :
+  (let '(bal, ok, s) := ledger fx_pinned w_wire req_init w_uaf 0%Z true in ok = false) /\
+  (let '(bal, ok, s) := ledger fx_pinned w_wire req_init w_leak 0%Z true in (0 < bal)%Z /\ n_pointers w_wire s = 0) /\
+  (let '(bal, ok, s) := ledger fx_pinned w_wire req_init w_resend 0%Z true in ok = false).
+Proof. vm_compute. repeat split; reflexivity. Qed.
+
+Lemma req_clone_policy_repaired_w :
+  (let '(bal, ok, s) := ledger fx_repaired w_wire req_init w_uaf 0%Z true in ok = true /\ bal = 0%Z /\ n_pointers w_wire s = 0) /\
+  (let '(bal, ok, s) := ledger fx_repaired w_wire req_init w_leak 0%Z true in ok = true /\ bal = 0%Z /\ n_pointers w_wire s = 0) /\
+  (let '(bal, ok, s) := ledger fx_repaired w_wire req_init w_resend 0%Z true in ok = true /\ bal = Z.of_nat (n_pointers w_wire s)).
+Proof. vm_compute. repeat split; reflexivity. Qed.
+
+(* ------------------------------------------------------------------ *)
+(* C15 clauses for cooked REQ                                           *)
+(* non-blocking receive: completes in the step; NNG_EAGAIN exactly when the
+   blocking form would be queued (a request is outstanding, nothing stashed, no
+   receive pending), and then nothing changes *)
+Lemma req_nb_recv s k c a :
+  exists rv mo s', req_ctx_recv s k c a true = (s', [Complete a rv mo]) /\
+    (rv = E_AGAIN -> s' = s /\ mo = None /\ cx_recv c = None /\ cx_req c <> None /\ cx_rep c = None) /\
+    (cx_recv c = None -> cx_req c <> None -> cx_rep c = None -> rv = E_AGAIN) /\
+    (cx_recv c = None -> forall m, cx_rep c = Some m -> rv = E_OK /\ mo = Some m).
+Proof.
+  unfold req_ctx_recv.
+  destruct (cx_recv c) eqn:E1; cbn [orb].
+  { destruct (cx_creset c); do 3 eexists; (split; [reflexivity|]); repeat split; try discriminate; try congruence. }
+  destruct (cx_req c) eqn:E2; destruct (cx_rep c) eqn:E3; cbn [orb andb].
+  - do 3 eexists. split; [reflexivity|]. repeat split; try discriminate; try congruence.
+  - do 3 eexists. split; [reflexivity|]. repeat split; try discriminate; try congruence.
+  - do 3 eexists. split; [reflexivity|]. repeat split; try discriminate; try congruence.
+  - destruct (cx_creset c); do 3 eexists; (split; [reflexivity|]); repeat split; try discriminate; try congruence.
+Qed.
+
+(* ... but a refused non-blocking send is not a no-op: it has already cancelled
+   the previous request of the context (state machine reset, stashed reply freed) *)
+Definition w_nbsend : list pop :=
+  [PPipeStart 1%N PROTO_REP; PSend None 0%N false w_req; PSendDone 1%N 0%N; PRecvDone 1%N 0%N w_reply;
+   PPipeClose 1%N; PSend None 9%N true w_req; PRecv None 9%N true].
+Definition outs_of (tr : list (pop * req * list pout * list pmsg)) : list (list pout) := map (fun x => snd (fst x)) tr.
+Lemma req_nb_send_state_refuted_w :
+  forall fx, fx = fx_pinned \/ fx = fx_repaired ->
+  nth 5 (outs_of (snd (req_run fx req_init w_nbsend))) [] = [Free (mkPmsg [] [187%N]); Complete 9%N E_AGAIN None] /\
+  nth 6 (outs_of (snd (req_run fx req_init w_nbsend))) [] = [Complete 9%N E_STATE None].
+Proof. intros fx [->| ->]; vm_compute; split; reflexivity. Qed.
+
+(* the receive descriptor: raised while nothing can be received (pinned) *)
+Definition w_rdpoll : list pop :=
+  [PPipeStart 1%N PROTO_REP; PSend None 0%N false w_req; PSendDone 1%N 0%N; PRecvDone 1%N 0%N w_reply;
+   PSend None 1%N false w_req].
+Lemma req_poll_mirror_refuted_w :
+  let s := fst (req_run fx_pinned req_init w_rdpoll) in
+  poll_r (req_poll s) = Some true /\ req_step fx_pinned s (PRecv None 9%N true) = (s, [Complete 9%N E_AGAIN None]).
+Proof. vm_compute. split; reflexivity. Qed.
+Lemma req_poll_mirror_repaired_w :
+  let s := fst (req_run fx_repaired req_init w_rdpoll) in poll_r (req_poll s) = Some false.
+Proof. vm_compute. reflexivity. Qed.
+
+(* cancelling a queued send while a receive is posted: the pinned code (with
+   assertions compiled out) leaves the receive pending for ever; the repaired code
+   completes it *)
+Definition w_cancel : list pop := [PSend None 0%N false w_req; PRecv None 1%N false; PCancel 0%N E_CANCELED].
+Lemma req_cancel_send_orphans_recv_refuted_w :
+  nth 2 (outs_of (snd (req_run fx_pinned req_init w_cancel))) [] = [Complete 0%N E_CANCELED None] /\
+  exists c, ctx_get (fst (req_run fx_pinned req_init w_cancel)) 0%N = Some c /\ cx_recv c = Some 1%N /\ cx_req c = None.
+Proof. vm_compute. split; [reflexivity|]. eexists. repeat split. Qed.
+Lemma req_cancel_send_repaired_w :
+  nth 2 (outs_of (snd (req_run fx_repaired req_init w_cancel))) [] = [Complete 1%N E_CANCELED None; Complete 0%N E_CANCELED None].
+Proof. vm_compute. reflexivity. Qed.
+
+(* resending disabled, reply stashed, then the connection goes: pinned code throws
+   the reply away and reports NNG_ECONNRESET; repaired code delivers it *)
+Definition w_stash : list pop :=
+  [PSetOpt None (OResendTime (-1)); PPipeStart 1%N PROTO_REP; PSend None 0%N false w_req; PSendDone 1%N 0%N;
+   PRecvDone 1%N 0%N w_reply; PPipeClose 1%N; PRecv None 9%N true].
+Lemma req_stashed_reply_survives_refuted_w :
+  nth 6 (outs_of (snd (req_run fx_pinned req_init w_stash))) [] = [Complete 9%N E_CONNRESET None].
+Proof. vm_compute. reflexivity. Qed.
+Lemma req_stashed_reply_survives_repaired_w :
+  nth 6 (outs_of (snd (req_run fx_repaired req_init w_stash))) [] = [Complete 9%N E_OK (Some (mkPmsg [] [187%N]))].
+Proof. vm_compute. reflexivity. Qed.
